@@ -286,13 +286,21 @@ Definition same_set (a b : list string) : bool :=
 
 (* does the statement's answer agree with the meaning of the script: every returned trace matches, with
    its matched spans; all matching traces are returned, or the `limit` most recent of them *)
-Definition result_ok (c : ctx) (all : list tres) (res : list (string * list string)) : bool :=
+Definition result_ok_j (J : list string -> list string -> bool) (c : ctx) (all : list tres) (res : list (string * list string)) : bool :=
   let keyed := flat_map (fun r => match find_tres (fst r) all with
-                                  | Some t => if same_set (snd r) (t_spans t) then [t] else []
+                                  | Some t => if J (snd r) (t_spans t) then [t] else []
                                   | None => [] end) res in
   Nat.eqb (List.length keyed) (List.length res)
   && distinct_strs (map fst res)
   && is_topk (limit c) all keyed.
+Definition result_ok : ctx -> list tres -> list (string * list string) -> bool := result_ok_j same_set.
+
+(* the judgement when a span list may be cut at k ids (groupArray(k) / groupUniqArray(k)): the returned ids are distinct matched spans of
+   the trace, all of them if there are at most k, else k of them -- WHICH k is not judged (ClickHouse does not promise an order for
+   groupArray's input and none at all for groupUniqArray) *)
+Definition cap_set (k : nat) (got ref : list string) : bool :=
+  forallb (fun x => existsb (String.eqb x) ref) got && distinct_strs got && Nat.eqb (List.length got) (Nat.min k (List.length ref)).
+Definition result_ok_cap (k : nat) : ctx -> list tres -> list (string * list string) -> bool := result_ok_j (cap_set k).
 
 (* 0 = agrees; 1 = the statement does not evaluate (unknown column, unsupported construct: ClickHouse
    would answer with an error); 2 = evaluates to a different answer *)
